@@ -50,6 +50,9 @@ pub enum Kind {
     Client,
     Actor,
     Timer,
+    /// a future the library spawned that is neither an actor's loop nor one of its timers (the unchanged library
+    /// has none): opaque to the specification, scheduled like any other task
+    Other,
 }
 
 struct Task {
@@ -171,7 +174,14 @@ impl Backend for Exec {
             let aid = ACTOR_SPAWNS.fetch_add(1, Ordering::SeqCst);
             crate::scenario::bind_name(aid, &name);
         }
-        self.add(fut, name, if is_actor { Kind::Actor } else { Kind::Timer });
+        let kind = if is_actor {
+            Kind::Actor
+        } else if name.starts_with('u') {
+            Kind::Other
+        } else {
+            Kind::Timer
+        };
+        self.add(fut, name, kind);
     }
     fn sleep(&self, d: Duration) -> BoxFut {
         Box::pin(self.sleep_ticks(d.as_millis() as u64))
@@ -294,7 +304,12 @@ impl Exec {
             (t.fut.take().unwrap(), t.flag.clone(), ix)
         };
         CUR.with(|c| *c.borrow_mut() = name.to_string());
-        ev(json!({"ev": "pick", "task": name}));
+        let opaque = self.0.borrow().tasks[ix].kind == Kind::Other;
+        if opaque {
+            ev(json!({"ev": "pick", "task": name, "opaque": true}));
+        } else {
+            ev(json!({"ev": "pick", "task": name}));
+        }
         let waker = Waker::from(flag);
         let r = std::panic::catch_unwind(std::panic::AssertUnwindSafe(|| fut.as_mut().poll(&mut TCx::from_waker(&waker))));
         match r {
